@@ -12,6 +12,7 @@ import Pog.Drv.GenCode
 import Pog.Drv.Conv
 import Pog.Drv.Parser
 import Pog.Drv.Resolve
+import Pog.Drv.Extract
 /-
   Line protocol: one JSON request per line on stdin, one JSON reply per line on stdout.
     request  {"f": <function>, "a": [<args>], "u": {<codepoint>: {"w":bool,"d":bool,"l":str,"U":str,"iu":bool}}}
@@ -34,7 +35,8 @@ def dispatchers : List Dispatch := [
   dispatchGenCode,
   dispatchConv,
   dispatchParser,
-  dispatchResolve
+  dispatchResolve,
+  dispatchExtract
 ]
 
 def dispatch (f : String) (a : Array Json) (u : UInfo) : Except String Json :=
